@@ -216,13 +216,13 @@ theorem Stream.graph_audit {P : Preset} {o : Options} (h3 : o.physicalType = 3) 
     graphStart_audit hf inv ho h3 g hg (hk g (by simp))
   obtain ⟨s2, frames2, ss2, rows2, e1, e2, e3, e4, e5, e6⟩ :=
     Stream.graphTriples_audit h3 exc g.norm triples
-      (({ s with enc := { s.enc with te := te' } } : Stream).pushRows (rows0 ++ [Row.graphStart (some w)]))
+      (({ s with enc := { s.enc with te := te'.endRow } } : Stream).pushRows (rows0 ++ [Row.graphStart (some w)]))
       [] ss1 inv1 ho1 hg1 htr hn
   obtain ⟨inv3, haud3⟩ := graphEnd_audit e3 e4 h3 e5
   refine ⟨{ (s2.pushRows [Row.graphEnd]) with flow := (s2.pushRows [Row.graphEnd]).flow.frameFromBounds.1 },
     frames2 ++ (s2.pushRows [Row.graphEnd]).flow.frameFromBounds.2.toList, { ss2 with graph := none },
     (rows0 ++ [Row.graphStart (some w)]) ++ (rows2 ++ [Row.graphEnd]), ?_, ?_, inv3, e4, ?_⟩
-  · simp only [Stream.graph, heq, e1]
+  · simp only [Stream.graph, TermEnc.beginRow_ok inv.inv.nb, heq, e1]
   · have hfb := frameFromBounds_rows (s2.pushRows [Row.graphEnd]).flow
     have : rowsOf (frames2 ++ (s2.pushRows [Row.graphEnd]).flow.frameFromBounds.2.toList)
         { (s2.pushRows [Row.graphEnd]) with flow := (s2.pushRows [Row.graphEnd]).flow.frameFromBounds.1 }
